@@ -29,6 +29,7 @@ import (
 	"strings"
 	"sync"
 	"sync/atomic"
+	"time"
 
 	"verif/core"
 	"verif/evmkit"
@@ -554,10 +555,10 @@ func main() {
 		run.Finish(nil, nil)
 	}
 
-	chains := []string{"K2", "A", "B", "C"}
+	chains := []string{"K2", "A", "C"}
 	ws := []int{1, 2, 8}
 	if !run.Quick() {
-		chains = append(chains, "D", "E")
+		chains = append(chains, "B", "D", "E")
 		chains = append(chains, orderingChains()...)
 		ws = []int{1, 2, 3, 8, 16}
 	}
@@ -603,9 +604,24 @@ func main() {
 		}
 		return out
 	}
+	// wall-clock cap: when it is reached no further batch is started; chains
+	// whose runs are then incomplete are not judged and listed as skipped
+	// (exhaustive:false).  A cap never produces a verdict.
+	capS := run.Pick(75, 780)
+	if v := os.Getenv("C05_TIME_CAP"); v != "" {
+		fmt.Sscanf(v, "%d", &capS)
+	}
+	t0 := time.Now()
+	var skippedBatches int64
 	runBatches := func(batches [][]wireJob) []spawned {
 		res := make([][]spawned, len(batches))
-		parN(len(batches), procs, func(i int) { res[i] = d.spawn(batches[i]) })
+		parN(len(batches), procs, func(i int) {
+			if capS > 0 && time.Since(t0) > time.Duration(capS)*time.Second {
+				atomic.AddInt64(&skippedBatches, 1)
+				return
+			}
+			res[i] = d.spawn(batches[i])
+		})
 		var all []spawned
 		for _, r := range res {
 			all = append(all, r...)
@@ -618,7 +634,11 @@ func main() {
 	for _, name := range chains {
 		refJobs = append(refJobs, wireJob{Chain: name, Cfg: cfg{P: 0, W: 1}})
 	}
-	for _, sp := range runBatches(batchUp(refJobs, 6)) {
+	capSaved := capS
+	capS = 0 // the references are always built
+	refRuns := runBatches(batchUp(refJobs, 6))
+	capS = capSaved
+	for _, sp := range refRuns {
 		name := sp.rr.Chain
 		d.results[name] = map[cfg]*runResult{sp.rr.Cfg: sp.rr}
 		if sp.ref == nil {
@@ -650,9 +670,23 @@ func main() {
 			jobs = append(jobs, wireJob{Chain: name, Cfg: c, Ref: wr})
 		}
 	}
+	expected := map[string]int{}
+	for _, j := range jobs {
+		expected[j.Chain]++
+	}
 	for _, sp := range runBatches(batchUp(jobs, 36)) {
 		d.results[sp.rr.Chain][sp.rr.Cfg] = sp.rr
 	}
+	skippedChains := []string{}
+	var judged []string
+	for _, name := range chains {
+		if d.refs[name].res.Fail == nil && len(d.results[name]) != expected[name]+1 {
+			skippedChains = append(skippedChains, name)
+			continue
+		}
+		judged = append(judged, name)
+	}
+	chains = judged
 
 	// judge, in a fixed order (fewest restarts first, so that the recorded case of a class is a minimal one)
 	runs := 0
@@ -737,7 +771,10 @@ func main() {
 	} else {
 		notes = append(notes, "free-running -race pass: thorough tier only (set C05_RACE=1 to force it in the quick tier)")
 	}
-	restricted := os.Getenv("C05_CHAINS") != ""
+	restricted := os.Getenv("C05_CHAINS") != "" || len(skippedChains) > 0
+	if len(skippedChains) > 0 {
+		notes = append(notes, fmt.Sprintf("TIME CAP of %d s reached: %d batches not started; chains not judged (incomplete): %s; largest bound completed: all partitions × all worker counts of the %d chains listed in chain order before them", capS, skippedBatches, strings.Join(skippedChains, " "), len(chains)))
+	}
 	if restricted {
 		notes = append(notes, "DEVELOPMENT RUN: chains restricted by C05_CHAINS="+os.Getenv("C05_CHAINS"))
 	}
@@ -769,6 +806,8 @@ func main() {
 		"rule": "for each fixed chain: the reference replica (one lifetime, 1 worker) builds the blocks; then EVERY partition of the chain into process lifetimes (2^(n-1): Stop()+NewEVMApp+Start on the same directory after the chosen blocks) × EVERY worker count in the list is run on a fresh directory and fed exactly those blocks, plus default-worker-count catch-up replicas (one lifetime / restart after every block) and repeated identical configurations; every run ends with one more restart after which the query list is read again. Compared per block and per component (app-hash, receipts-hash, execute-result, 7 query classes): same partition vs 1 worker; same workers vs unpartitioned run (receipts-hash: vs the smallest partition whose executing lifetime had applied the same earlier KV transactions, that one vs the unpartitioned run); repeated runs; after-restart answers vs before-restart answers. states = distinct (chain, height, first block of the executing lifetime, workers); distinct_nontrivial = distinct (chain, height, full record) values observed",
 		"exhaustive":               !restricted,
 		"chains":                   len(chains),
+		"chains_skipped_by_time_cap": skippedChains,
+		"time_cap_s":               capS,
 		"chains_of_6_blocks":       nChains6,
 		"runs":                     runs,
 		"blocks_executed":          int(blockExec),
